@@ -130,7 +130,7 @@ func main() {
 			r := NewReport(c, id, "thorough")
 			runProp(f, c, r)
 			runVariants(c, r, id, *repo)
-			fmt.Printf("%s variants: total=%v detected=%v stale=%v missed=%v\n", id, r.Extra["variants_total"], r.Extra["variants_detected"], r.Extra["variants_stale"], r.Extra["variants_missed"])
+			fmt.Printf("%s variants: total=%v detected=%v benign-silent=%v stale=%v missed-or-false-alarm=%v\n", id, r.Extra["variants_total"], r.Extra["variants_detected"], r.Extra["variants_silent"], r.Extra["variants_stale"], r.Extra["variants_missed"])
 			if m, ok := r.Extra["variants_missed"].(int); ok {
 				missed += m
 			}
